@@ -13,7 +13,8 @@ package newrelic
 //@   modifies everything
 //@ func (*Client).SendMetricsAsync$2
 //@   requires cb != nil
-//@   loop 1 invariant calls(cb) == 0 && cb != nil
+//@   callsite cb requires received(results) >= old(received(results)) + counter || calls(Err) >= 1
+//@   loop 1 invariant calls(cb) == 0 && cb != nil && calls(Err) == 0 && received(results) == old(received(results)) + c
 //@   ensures  calls(cb) == 1
 //@   modifies everything
 //@ func (*Client).processMetrics
